@@ -73,18 +73,18 @@ static void cb_end_elt(void *ctx, WBXMLTag *tag) { pctx_t *c = ctx; hstr(c, wbxm
 static void cb_chars(void *ctx, WB_UTINY *ch, WB_ULONG start, WB_ULONG length) { pctx_t *c = ctx; c->h = fnv(c->h, ch + start, length); c->events++; }
 static void cb_pi(void *ctx, const WB_UTINY *target, WB_UTINY *data) { pctx_t *c = ctx; hstr(c, target); hstr(c, data); c->events++; }
 
-static const char *KIND[] = { "xml2wbxml", "wbxml2xml", "parser", "tree+encoder", "wbxml2xml-damaged", "xml2wbxml-damaged" };
+static const char *KIND[] = { "xml2wbxml", "wbxml2xml", "parser", "tree+encoder", "wbxml2xml-damaged", "xml2wbxml-damaged", "tree-api+encoder" };
 
 /* one operation; everything it touches is allocated here */
 static uint64_t do_op(int t, int k, int *kind_out, int *doc_out, int *nontrivial) {
     uint64_t s = seed * 1000003ULL + (uint64_t) t * 7919ULL + (uint64_t) k * 104729ULL;
-    int kind = (int) (sm64(&s) % 6);
+    int kind = (int) (sm64(&s) % 7);
     int d = (int) (sm64(&s) % (uint64_t) ndocs);
     uint64_t r = sm64(&s);
     uint64_t h = 0;
     doc_t *doc = &docs[d];
     *kind_out = kind; *doc_out = d;
-    if ((kind == 1 || kind == 2 || kind == 4) && doc->wb == NULL) kind = 0;
+    if ((kind == 1 || kind == 2 || kind == 4 || kind == 6) && doc->wb == NULL) kind = 0;
     switch (kind) {
     case 0: case 5: {
         WBXMLConvXML2WBXML *conv = NULL; WB_UTINY *out = NULL; WB_ULONG out_len = 0; WBXMLError ret;
@@ -143,6 +143,23 @@ static uint64_t do_op(int t, int k, int *kind_out, int *doc_out, int *nontrivial
         h = hres((int) ret, (const unsigned char *) &c.h, sizeof c.h);
         if (c.events > 2) (*nontrivial)++;
         free(in);
+        break; }
+    case 6: {
+        /* a tree made through the API for the document's language (wbxml_tree_create looks the language up), one root element, encoded */
+        WBXMLTree *tree = wbxml_tree_create(doc->lang, WBXML_CHARSET_UTF_8);
+        WB_UTINY *o = NULL; WB_ULONG l = 0; WBXMLError ret = WBXML_ERROR_NOT_ENOUGH_MEMORY;
+        if (tree) {
+            if (tree->lang && tree->lang->publicID && tree->lang->publicID->xmlRootElt) {
+                WB_UTINY *name = (WB_UTINY *) strdup(tree->lang->publicID->xmlRootElt);
+                WBXMLGenWBXMLParams params = { WBXML_VERSION_13, FALSE, TRUE, FALSE };
+                if (wbxml_tree_add_xml_elt(tree, NULL, name) != NULL)
+                    ret = wbxml_tree_to_wbxml(tree, &o, &l, &params);
+                free(name);
+            }
+            wbxml_tree_destroy(tree);
+        }
+        h = hres((int) ret, ret == WBXML_OK ? o : NULL, ret == WBXML_OK ? l : 0);
+        if (ret == WBXML_OK) { free(o); (*nontrivial)++; }
         break; }
     default: {
         WBXMLTree *tree = NULL; WBXMLError ret; WB_UTINY *o1 = NULL, *o2 = NULL; WB_ULONG l1 = 0, l2 = 0;
